@@ -374,7 +374,7 @@ func Run(c *ev.Ctx) {
 	}
 	tuples := []st{{"web.v1", "", false}, {"a+b", "", false}, {"*", "", false}, {"web.v1", "p1", false}, {"other", "p1", false},
 		// intentions on the wildcard destination: they are part of every destination's match list, below the ones naming it
-		{"web.v1", "", true}, {"*", "", true}}
+		{"web.v1", "", true}, {"*", "", true}, {"web.v1", "p1", true}}
 	var actions []ixn
 	actions = append(actions, ixn{action: "allow"}, ixn{action: "deny"})
 	for i := range pm {
@@ -528,7 +528,7 @@ func Run(c *ev.Ctx) {
 	c.Set("evaluations", evals)
 	c.Set("distinct_nontrivial", len(programs))
 	c.Set("intention_sets", len(programs))
-	c.Set("rule", "programs = every set of <=K intentions applying to one destination (naming it, or naming the wildcard destination: sources web.v1 and *) over sources {web.v1, a+b, *} local and {web.v1, other} from peer p1, actions allow/deny/L7 permission lists (path exact/prefix/regex, methods, header present/exact+invert), x TCP/HTTP x both defaults x with/without the peer trust bundle; each translated by the real makeRBACRules and evaluated by an independent Envoy RBAC evaluator for every caller identity (mentioned names, fresh, regex near-misses webxv1/aab/ab, foreign trust domain, peered via gateway+XFCC, forged XFCC) and for HTTP every request in {5 paths}x{GET,POST}x{x-test absent,v,w}")
+	c.Set("rule", "programs = every set of <=K intentions applying to one destination (naming it, or naming the wildcard destination: sources web.v1, * and web.v1 from peer p1) over sources {web.v1, a+b, *} local and {web.v1, other} from peer p1, actions allow/deny/L7 permission lists (path exact/prefix/regex, methods, header present/exact+invert), x TCP/HTTP x both defaults x with/without the peer trust bundle; each translated by the real makeRBACRules and evaluated by an independent Envoy RBAC evaluator for every caller identity (mentioned names, fresh, regex near-misses webxv1/aab/ab, foreign trust domain, peered via gateway+XFCC, forged XFCC) and for HTTP every request in {5 paths}x{GET,POST}x{x-test absent,v,w}")
 	c.Sample(map[string]any{"example_program": fmt.Sprint(programs[len(programs)/2]), "callers": len(callers(true, true))})
 	c.Assume("the evaluator implements Envoy's documented RBAC semantics (policy = any principal AND any permission; safe_regex is a full match; Go's RE2 dialect equals Envoy's)")
 }
